@@ -300,8 +300,6 @@ handle_reload_watch (DBusWatch    *watch,
       if (! bus_context_reload_config (context, &error))
         {
           _DBUS_ASSERT_ERROR_IS_SET (&error);
-          _dbus_assert (dbus_error_has_name (&error, DBUS_ERROR_FAILED) ||
-                        dbus_error_has_name (&error, DBUS_ERROR_NO_MEMORY));
           _dbus_warn ("Unable to reload configuration: %s",
                       error.message);
           dbus_error_free (&error);
